@@ -9,6 +9,7 @@ import hashlib
 
 from vf.core.rec import exc_sig
 from vf.ref import t1_layout as TL
+from vf.tags import tlv_end as TE
 from vf.sim.t1t import T1TModel, opname
 from vf.sim.tagdevice import SimTagDevice, activate
 
@@ -574,9 +575,19 @@ RULE_C08 = ("images: random; valid CC + random TLV area; valid layouts with 1-3 
             "HR0/HR1 variants incl. static/dynamic command-set mismatch and memory mirroring beyond the physical end x "
             "'tag stops answering after command j' for every j of the fault-free evaluation x well-framed adversarial "
             "responses (every RALL length 1..121 sampled, short/long/random READ8/RSEG answers); a case is (image, HR, "
-            "script), non-trivial when activation and the tag.ndef evaluation sequence were run to their end")
+            "script), non-trivial when activation and the tag.ndef evaluation sequence were run to their end; plus the "
+            "enumerated class 'NDEF TLV near the end of the data area' (vf/tags/tlv_end.py): 1-byte length form L=0..254 and "
+            "3-byte form L=0..300 (incl. the non-canonical values < 255) x value ending -3..+4 usable bytes from the end of "
+            "the declared data area (every offset) x reserved ranges none/before/inside/tail/before+inside/straddle x "
+            "geometries static 120 (TMS 96) and dynamic 256..1024 bytes physical with the data area declared shorter than "
+            "the physical memory, whose bytes behind the data area hold a distinct pattern (same oracles: length<=capacity, "
+            "octets unchanged when everything outside the declared data area is inverted)")
 REQUIRED_C08 = ["t1t_c08_cases", "t1t_c08_step_budget_armed", "t1t_c08_outcome_none", "t1t_c08_outcome_ndef", "t1t_c08_mute_positions",
-                "t1t_c08_adversarial_responses", "t1t_c08_noninterference_checked"]
+                "t1t_c08_adversarial_responses", "t1t_c08_noninterference_checked",
+                "t1t_c08_tlv_end_cases", "t1t_c08_tlv_end_form3_len_below_255", "t1t_c08_tlv_end_memory_behind",
+                "t1t_c08_tlv_end_rsv_before", "t1t_c08_tlv_end_rsv_inside", "t1t_c08_tlv_end_fit_returned_value",
+                "t1t_c08_tlv_end_overrun_returned_none", "t1t_c08_tlv_end_overrun_noninterference_checked_or_none"] + [
+    "t1t_c08_tlv_end_form%d_off_%s" % (_f, TE.off_name(_d)) for _f in (1, 3) for _d in TE.OFFSETS]
 
 C08_STEPS = 600000        # executed source lines inside nfc/tag/tt1*.py per evaluation (the largest fault-free one needs ~10^5)
 
@@ -653,8 +664,10 @@ NOMINAL = {"RALL": 122, "READ": 2, "READ8": 9, "RSEG": 129, "RID": 6}
 
 def plan_c08(tier):
     if tier == "quick":
-        return [{"images": 3500, "mute_every": 12, "adv": 3, "timeout": 300} for _ in range(3)]
-    return [{"images": 60000, "mute_every": 6, "adv": 4, "rall_all": True, "timeout": 3000} for _ in range(4)]
+        return ([{"images": 3500, "mute_every": 12, "adv": 3, "timeout": 300} for _ in range(3)]
+                + [{"tlv_end": form, "timeout": 300} for form in (1, 3)])
+    return ([{"images": 60000, "mute_every": 6, "adv": 4, "rall_all": True, "timeout": 3000} for _ in range(4)]
+            + [{"tlv_end": form, "part": part, "parts": 2, "timeout": 3000} for form in (1, 3) for part in (0, 1)])
 
 
 def c08_mutate(rng, L):
@@ -870,8 +883,10 @@ def _short(spec):
     return s
 
 
-def c08_case(case, R):
+def c08_case(case, R, info=None):
     out, octets, ncmd, log = c08_eval(case, R)
+    if info is not None:
+        info["octets"] = octets
     R.case(digest(case["image"], case["hr0"], case["hr1"], case.get("dynamic"), case.get("beyond"), case.get("script")),
            nontrivial=out != "bound")
     R.count("t1t_c08_cases")
@@ -898,6 +913,8 @@ def c08_case(case, R):
             rec2 = _Quiet()
             out2, oct2, _, _ = c08_eval(c2, rec2)
             R.count("t1t_c08_noninterference_checked")
+            if info is not None:
+                info["noninterference"] = True
             if out2 == "ndef" and oct2 != octets:
                 R.violation("t1t/c08/octets-outside-data-area/" + c08_refclass(case, octets),
                             "octets (%d) change when only bytes outside the declared data area (%d bytes) / in blocks Dh,Eh "
@@ -910,7 +927,74 @@ class _Quiet(object):
         pass
 
 
+# geometries of the tlv-end class: (HR0, HR1, physical bytes, declared data area = (TMS+1)*8)
+TLV_END_GEO = [(0x11, 0x48, 120, 96), (0x12, 0x4C, 256, 192), (0x12, 0x4C, 512, 256), (0x1A, 0x00, 512, 392),
+               (0x12, 0x4C, 1024, 520), (0x12, 0x4C, 256, 256)]
+
+
+def c08_tlv_end_image(rng, geo, form, ln, d, variant):
+    """-> (case, description) or None when the combination cannot be laid out in this geometry"""
+    hr0, hr1, phys, data_end = geo
+    img = bytearray(phys)
+    img[0:7] = rng.randbytes(7)
+    img[8:12] = bytes([0xE1, 0x10, data_end // 8 - 1, 0x00])
+    fixed = range(104, 120) if (hr0 & 0x0F) == 1 else range(104, 128)
+    td = TE.build(rng, img, 12, data_end, d, form, ln, variant, fixed_reserved=fixed, min_exp=0)
+    if td is None:
+        return None
+    case = {"family": FAM, "image": bytes(img), "hr0": hr0, "hr1": hr1, "cls": "tlv-end",
+            "tlv_end": {k: v for k, v in td.items() if k != "value"}}
+    return case, td
+
+
+def run_c08_tlv_end(desc, R, rng):
+    form = desc["tlv_end"]
+    specs = TE.enumerate_specs(rng, form, desc["tier"], len(TLV_END_GEO))
+    if desc.get("parts"):
+        specs = specs[desc["part"]::desc["parts"]]
+    case = None
+    for ln, d, cand, full in specs:
+        built = 0
+        for variant, g in cand:
+            x = c08_tlv_end_image(rng, TLV_END_GEO[g], form, ln, d, variant)
+            if x is None:
+                R.count("t1t_c08_tlv_end_not_laid_out")
+                continue
+            case, td = x
+            built += 1
+            info = {}
+            out, ncmd, log = c08_case(case, R, info)
+            R.count("t1t_c08_tlv_end_cases")
+            R.count("t1t_c08_tlv_end_form%d_off_%s" % (form, TE.off_name(d)))
+            R.count("t1t_c08_tlv_end_geo_%d_of_%d" % (td["data_end"], td["phys"]))
+            if form == 3 and ln < 255:
+                R.count("t1t_c08_tlv_end_form3_len_below_255")
+            if td["behind"]:
+                R.count("t1t_c08_tlv_end_memory_behind")
+            for c in td["realised"] or ["none"]:
+                R.count("t1t_c08_tlv_end_rsv_" + c)
+            R.max("t1t_c08_tlv_end_max_len", ln)
+            # what the reader made of it (observations, not verdicts: the verdicts are c08_case's)
+            if td["fits"]:
+                if out == "ndef" and info.get("octets") == td["value"]:
+                    R.count("t1t_c08_tlv_end_fit_returned_value")
+                else:
+                    R.count("t1t_c08_tlv_end_fit_returned_" + ("other_octets" if out == "ndef" else out.replace("-", "_")))
+            else:
+                R.count("t1t_c08_tlv_end_overrun_returned_" + out.replace("-", "_"))
+                if out == "none" or info.get("noninterference"):
+                    R.count("t1t_c08_tlv_end_overrun_noninterference_checked_or_none")
+            if not full:
+                break
+        if not built:
+            R.count("t1t_c08_tlv_end_length_offset_without_image")
+    if case is not None:
+        R.sample({"t1t_c08_tlv_end_last_case": case["tlv_end"]})
+
+
 def run_c08(desc, R, rng):
+    if desc.get("tlv_end"):
+        return run_c08_tlv_end(desc, R, rng)
     for i in range(desc["images"]):
         case = c08_gen(rng)
         R.seen("t1t_c08_image_classes", case["cls"])
